@@ -213,6 +213,11 @@ def gen_encs(r, mode, pattern, vector="mix", share=True, decoys=None):
             plan.insert(r.randrange(len(plan) + 1), [free.pop(), True, r.choice([0, 1, 2])])
         plan.sort(key=lambda e: e[2])
         case["pipe"] = plan
+        if r.random() < 0.7:
+            # settings of the detector's sub-objects, read back by every run: pre-amplification, full well, ADC bits,
+            # thickness, pixel sizes (small integers)
+            case["det"] = [r.randrange(1, 13), r.randrange(1, 13), r.randrange(8, 13), r.randrange(1, 13),
+                           r.randrange(1, 13), r.randrange(1, 13)]
     return case
 
 
@@ -418,7 +423,8 @@ def cpipe(desc) -> str:
     if case["kind"] != "encs" or not case.get("pipe"):
         return "None"
     ms = core.clist(f"(mkMI {core.cz(int(j))} {core.cbool(bool(en))})" for j, en, _ in case["pipe"])
-    return f"(Some ({ms}, {core.cbool(bool(desc.get('pickled')))}))"
+    st = "None" if not case.get("det") else "(Some " + core.clist(core.cz(int(x)) for x in case["det"]) + ")"
+    return f"(Some ({ms}, {core.cbool(bool(desc.get('pickled')))}, {st}))"
 
 
 def emit_file(subs) -> str:
